@@ -20,7 +20,9 @@ REQ = ["Exports.Scan", "Exports.StarReplace", "Exports.Wire"]
 
 ANCHORS = ["pyflyby._modules:ModuleHandle._member_from_node", "pyflyby._modules:ModuleHandle",
            "pyflyby._imports2s:replace_star_imports",
-           "pyflyby._importclns:ImportSet._from_imports"]
+           "pyflyby._importclns:ImportSet._from_imports", "pyflyby._idents:DottedIdentifier.startswith",
+           "pyflyby._idents:DottedIdentifier.__add__", "pyflyby._util:ImportPathCtx",
+           "pyflyby._imports2s:ImportPathForRelativeImportsCtx"]
 
 NAMES = ["a", "b", "_p", "K", "f", "sub", "x", "g", "h"]
 SUBS = ["sub", "x", "b"]
@@ -114,13 +116,20 @@ def all_stmts(r, stmts, mode, private_ok=False):
     if mode == "string":          # list("ab") = ['a', 'b']
         es = [n for n in pool if len(n) == 1]
         return [st("__all__ = %r" % "".join(es[:2]))] if es else []
+    if mode == "annotated":
+        return [st("__all__: list = %r" % (entries(),))]
+    if mode == "annotated_aug":
+        return [st("__all__: list = %r" % (entries(),)), st("__all__ += %s" % lit(entries(1, 2)))]
+    if mode == "annotated_nonliteral":
+        return [st("__all__ = %s" % lit(entries())), st("__all__: list = [n for n in %r]" % (entries(),))]
     if mode == "aug_only":
         return [st("_q = []\n_q += ['zz']")]
     raise ValueError(mode)
 
 
 ALL_MODES = ["none"] * 9 + ["literal"] * 5 + ["literal_aug"] * 2 + ["nonliteral", "aug_nonliteral",
-             "reassigned", "reassigned_bad", "chain", "string"]
+             "reassigned", "reassigned_bad", "chain", "string", "annotated", "annotated", "annotated_aug",
+             "annotated_nonliteral"]
 
 
 def insert_all(r, stmts, extra):
@@ -189,16 +198,35 @@ def gen_tree(r, tag, stream):
                 stmts.append(r.choice([st("from .%s import %s" % (s0, n), (n, "foreign")),
                                        st("from %s.%s import %s" % (P, s0, n), (n, "foreign")),
                                        st("from . import %s" % s0, (s0, "mod"))]))
+    # names imported FROM AN ANCESTOR package are not re-exports of the module's own subtree
+    for (_, s), stmts in subinfo:
+        if r.random() < .4:
+            n = pick(r)
+            stmts.append(r.choice([st("from %s import CFG" % P, ("CFG", "foreign")),
+                                   st("from %s import CFG as %s" % (P, n), (n, "foreign")),
+                                   st("from . import CFG", ("CFG", "foreign")),
+                                   st("from . import CFG as %s" % n, (n, "foreign"))]))
     inner = r.random() < .35
     inner_names = []
     if inner:
         q = gen_plain(r, P + ".inner.q", foreign=G, n_hi=3)
+        if r.random() < .5:
+            n = pick(r)
+            q.append(r.choice([st("from %s import CFG" % P, ("CFG", "foreign")),
+                               st("from %s import CFG as %s" % (P, n), (n, "foreign")),
+                               st("from .. import CFG", ("CFG", "foreign"))]))
         if subinfo and r.random() < .4:
             (_, s0), st0 = subinfo[0]
             dn = defined_names(st0)
             if dn:
                 q.append(st("from ..%s import %s" % (s0, dn[0]), (dn[0], "foreign")))
         ini = list(PROLOGUE) + [local_stmt(r) for _ in range(r.randint(0, 2))]
+        if r.random() < .5:
+            n = pick(r)
+            ini.append(r.choice([st("from %s import CFG" % P, ("CFG", "foreign")),
+                                 st("from %s import CFG as %s" % (P, n), (n, "foreign")),
+                                 st("from .. import CFG", ("CFG", "foreign")),
+                                 st("from .. import CFG as %s" % n, (n, "foreign"))]))
         dq = defined_names(q)
         if dq and r.random() < .7:
             n = r.choice(dq)
@@ -213,8 +241,8 @@ def gen_tree(r, tag, stream):
             if dn:
                 ini.append(st("from ..%s import %s" % (s0, dn[0]), (dn[0], "foreign")))
         inner_names = defined_names(ini, ("local", "own"))
-    # the package __init__
-    stmts = list(PROLOGUE)
+    # the package __init__ (CFG is bound before any submodule is imported)
+    stmts = list(PROLOGUE) + [st("CFG = [0]", ("CFG", "local"))]
     for _ in range(r.randint(1, 7)):
         k = r.random()
         if k < .45 or not subinfo:
@@ -394,11 +422,45 @@ def gen_cases(ctx, n):
             mods.append({"name": name, "is_init": False, "stmts": None, "all": "none", "path": None,
                          "broken": "uninspectable:" + kind, "uninspectable": True})
             failing.append(name)
-        importable = [m["name"] for m in mods if not m.get("broken")]
+        # a program FILE in its own directory with a sibling module; a same-named decoy is importable from the
+        # root (earlier on sys.path for the inspecting process, later for the program run as a script)
+        H, PD = "hp" + tag, "prog" + tag
+        hst = gen_plain(r, H, n_lo=2, n_hi=4)
+        if not defined_names(hst):
+            hst.append(st("hx = [1]", ("hx", "local")))
+        files["%s/%s.py" % (PD, H)] = render(hst)
+        files[H + ".py"] = "decoy = [1]\n"
+        mods.append({"name": H, "is_init": False, "stmts": hst, "all": "none", "path": "%s/%s.py" % (PD, H), "late": True})
+        # symlinked module files / __init__.py / package directories
+        links = []
+        if r.random() < .35:
+            kind = r.choice(["init", "init", "sub", "dir", "flat"])
+            pkinit = [p for p in files if p.endswith("/__init__.py") and p.startswith("pk")]
+            subs_ = [p for p in files if p.startswith(P + "/") and p.count("/") == 1 and not p.endswith("__init__.py")]
+            if kind == "init" and pkinit:
+                p0 = r.choice(pkinit)
+                links.append(["file", p0, p0.replace("__init__.py", "_initimpl.py")])
+            elif kind == "sub" and subs_:
+                p0 = r.choice(subs_)
+                links.append(["file", p0, p0.replace(".py", "_impl.py")])
+            elif kind == "dir":
+                links.append(["dir", P, "_real" + P])
+            elif kind == "flat":
+                links.append(["file", F + ".py", "_flatimpl" + tag + ".py"])
+        importable = [m["name"] for m in mods if not m.get("broken") and not m.get("late")]
         programs = [gen_program(r, [m for m in importable if m not in failing], failing, allow_bad=bool(j)) for j in range(2)]
+        ftext = "\n".join(["from %s import *" % H] + ([r.choice(["import os", "from %s import *" % r.choice(importable)])] if importable else [])
+                          + ["_z = 1"]) + "\n"
+        fileprogs = [{"dir": PD, "file": "%s/main.py" % PD, "text": ftext}]
         cases.append({"kind": "tree", "i": i, "stream": stream, "files": files, "mods": mods,
-                      "programs": programs, "failing": failing, "bfiles": bfiles, "dirs": dirs, "pycs": pycs})
+                      "programs": programs, "failing": failing, "bfiles": bfiles, "dirs": dirs, "pycs": pycs,
+                      "fileprogs": fileprogs, "links": links})
     return cases
+
+
+def all_programs(c):
+    """texts of the in-memory programs followed by the program files"""
+    return list(c["programs"]) + [fp["text"] for fp in c.get("fileprogs", [])]
 
 
 # ---------------------------------------------------------------------------------------------
@@ -428,7 +490,8 @@ def summarize(src):
         if isinstance(n, ast.Assign):
             out.append({"k": "assign", "ts": [t_target(t) for t in n.targets], "v": t_lit(n.value)})
         elif isinstance(n, ast.AnnAssign):
-            out.append({"k": "ann", "t": t_target(n.target), "hasv": n.value is not None})
+            out.append({"k": "ann", "t": t_target(n.target), "hasv": n.value is not None,
+                        "v": t_lit(n.value) if n.value is not None else None})
         elif isinstance(n, ast.ClassDef):
             out.append({"k": "class", "n": n.name})
         elif isinstance(n, ast.FunctionDef):
@@ -487,7 +550,7 @@ def c_node(n):
     if k == "assign":
         return "NAssign %s %s" % (cm.clist([c_target(t) for t in n["ts"]]), c_lit(n["v"]))
     if k == "ann":
-        return "NAnnAssign %s %s" % (c_target(n["t"]), cm.cbool(n["hasv"]))
+        return "NAnnAssign %s %s" % (c_target(n["t"]), "(Some %s)" % c_lit(n["v"]) if n["hasv"] else "None")
     if k == "class":
         return "NClassDef %s" % cm.cstr(n["n"])
     if k == "def":
@@ -511,6 +574,8 @@ ORACLE_CHILD = r'''
 import sys, json
 job = json.loads(sys.stdin.read())
 sys.path.insert(0, job["root"])
+for d in job.get("scriptdirs", []):
+    sys.path.insert(0, d)           # python puts the directory of the script first
 sys.dont_write_bytecode = True
 res = {"star": {}, "one": {}, "programs": []}
 for m in job["mods"]:
@@ -611,13 +676,19 @@ def impl_case(c):
                 f.write("a = [1]\n")
             py_compile.compile(tmp_src, cfile=os.path.join(root, pyc))
             os.remove(tmp_src)
+        for fp in c.get("fileprogs", []):
+            with open(os.path.join(root, fp["file"]), "w") as f:
+                f.write(fp["text"])
+        for kind, path, target in c.get("links", []):
+            os.rename(os.path.join(root, path), os.path.join(root, target))
+            os.symlink(os.path.basename(target) if kind == "file" else target, os.path.join(root, path))
         sys.path.insert(0, root)
         import importlib
         importlib.invalidate_caches()
         out = {"mods": {}, "programs": []}
         exports = {}
-        names = [m["name"] for m in c["mods"]] + [x for x in c["failing"] if x not in [m["name"] for m in c["mods"]]]
-        for m in c["mods"]:
+
+        def inspect_mod(m):
             name = m["name"]
             e, full = _exports_of(name)
             rec = {"exports": e}
@@ -640,12 +711,17 @@ def impl_case(c):
                 rec["exists_truth"] = [[d, d in truth] for d in cand]
             exports[name] = e
             out["mods"][name] = rec
+        for m in c["mods"]:
+            if not m.get("late"):
+                inspect_mod(m)
         for x in c["failing"]:
             if x not in exports:
                 exports[x] = _exports_of(x)[0]
                 out["mods"][x] = {"exports": exports[x], "summary": None}
-        # replace_star_imports on the programs
-        for text in c["programs"]:
+        # replace_star_imports on the programs (in memory, then the program files)
+        progs = [(text, None) for text in c["programs"]] + \
+                [(fp["text"], os.path.join(root, fp["file"])) for fp in c.get("fileprogs", [])]
+        for text, fname in progs:
             blocks_in = []
             t = S.SourceToSourceFileImportsTransformation(PythonBlock(text))
             for b in t.blocks:
@@ -665,19 +741,23 @@ def impl_case(c):
                 return res
             S.SourceToSourceImportBlockTransformation.pretty_print = pp
             try:
-                res = S.replace_star_imports(PythonBlock(text))
+                res = S.replace_star_imports(PythonBlock(text, filename=fname) if fname else PythonBlock(text))
                 outp = {"blocks": blocks_in, "renders": renders, "out": res.text.joined}
             except Exception as e:
                 outp = {"exc": type(e).__name__, "msg": str(e)[:300]}
             finally:
                 S.SourceToSourceImportBlockTransformation.pretty_print = orig
             out["programs"].append(outp)
+        for m in c["mods"]:
+            if m.get("late"):
+                inspect_mod(m)       # after the program files: ModuleHandle has located the module by then
         # the real interpreter, in a fresh process
         job = {"root": root,
                "mods": [m["name"] for m in c["mods"] if not m.get("broken") or m.get("broken") in ("nonstr", "undefined_entry")],
                "exports": {k: v for k, v in exports.items() if isinstance(v, list)},
+               "scriptdirs": [os.path.join(root, fp["dir"]) for fp in c.get("fileprogs", [])],
                "programs": []}
-        for text, po in zip(c["programs"], out["programs"]):
+        for text, po in zip(all_programs(c), out["programs"]):
             execable = "out" in po and not any(("import *" in l and any(l.startswith("from %s import" % f) for f in c["failing"] + [".rel"]))
                                                for l in text.split("\n"))
             job["programs"].append({"before": text, "after": po["out"]} if execable else None)
@@ -692,7 +772,7 @@ def impl_case(c):
         if root in sys.path:
             sys.path.remove(root)
         for k in set(sys.modules) - before_mods:
-            if k.split(".")[0][:2] in ("pk", "fl", "gg", "bk", "an", "no", "un"):
+            if k.split(".")[0][:2] in ("pk", "fl", "gg", "bk", "an", "no", "un", "hp", "pr"):
                 del sys.modules[k]
         shutil.rmtree(root, ignore_errors=True)
 
@@ -740,7 +820,7 @@ def is_f19_private_all_entry(name, star):
 def is_dynamic_all_overexport(name, mod, star):
     """C19-b: the module's __all__ is not a literal (the scan falls back to every public top-level name) and the
     name is not in the run-time __all__, i.e. the real star import does not bind it."""
-    return bool(mod) and mod.get("all") in ("nonliteral", "aug_nonliteral", "reassigned_bad") and \
+    return bool(mod) and mod.get("all") in ("nonliteral", "aug_nonliteral", "reassigned_bad", "annotated_nonliteral") and \
         bool(star.get("has_all")) and name not in star.get("all", [])
 
 
@@ -763,7 +843,7 @@ def is_annotated_all(mod):
 
 def expected_exports(m, star):
     """The property's first sentence, from the generator's own record of the module."""
-    lit_modes = {"literal", "literal_aug", "reassigned", "chain", "string"}
+    lit_modes = {"literal", "literal_aug", "reassigned", "chain", "string", "annotated", "annotated_aug"}
     if m["all"] in lit_modes:
         if "exc" in star:
             return None
@@ -798,25 +878,20 @@ def oracle_case(ctx, c, im):
         if e == "EXC":
             ctx.violation("exports_raise_on_inspectable_module", {"case": c, "module": name}, rec.get("exc"))
         elif exp is not None and got != exp:
-            if is_annotated_all(m):
-                ctx.known_hit("C19-a", "annotated `__all__: T = [...]` is ignored: exports %r, __all__ says %r" % (got, star.get("all")))
-            else:
-                ctx.violation("exports_exact", {"case": c, "module": name},
-                              "exports %r, the property's rule on the generated module gives %r" % (got, exp))
+            ctx.violation("exports_exact", {"case": c, "module": name},
+                          "exports %r, the property's rule on the generated module gives %r" % (got, exp))
         # (2) importable
         if isinstance(e, list) and m.get("broken") != "undefined_entry":
             bad = {x: v for x, v in real["one"].get(name, {}).items() if v is not True}
             if bad:
                 ctx.violation("importable", {"case": c, "module": name}, "from %s import x fails for %r" % (name, bad))
         # (2') exports are a subset of what the real star import binds (module has no __all__ or a good one)
-        if isinstance(e, list) and "names" in star and m["all"] in ("none", "literal", "literal_aug", "reassigned", "chain", "string", "annotated"):
+        if isinstance(e, list) and "names" in star and m["all"] in ("none", "literal", "literal_aug", "reassigned", "chain", "string", "annotated", "annotated_aug"):
             extra = [x for x in e if x not in star["names"]]
-            if extra and is_annotated_all(m):
-                ctx.known_hit("C19-a", "annotated `__all__: T = [...]` is not read: exported but not bound by the real star import: %r" % extra)
-            elif extra:
+            if extra:
                 ctx.violation("exports_subset_of_star", {"case": c, "module": name}, "exported but not bound by the star import: %r" % extra)
     # (3) programs
-    for pi, (text, po, pr) in enumerate(zip(c["programs"], im["programs"], real.get("programs", []))):
+    for pi, (text, po, pr) in enumerate(zip(all_programs(c), im["programs"], real.get("programs", []))):
         if "exc" in po:
             ctx.violation("replace_star_imports_raises", {"case": c, "program": pi}, po)
             continue
@@ -857,8 +932,6 @@ def oracle_case(ctx, c, im):
             if p2 and p2[0] == "from" and is_dynamic_all_overexport(k, bymod.get(p2[1]), real["star"].get(p2[1], {})):
                 ctx.known_hit("C19-b", "non-literal __all__: %r is exported statically but not bound by the real star import of %s; "
                                        "its replacement shadows another binding" % (k, p2[1]))
-            elif p2 and p2[0] == "from" and is_annotated_all(bymod.get(p2[1])) and k not in real["star"].get(p2[1], {}).get("all", []):
-                ctx.known_hit("C19-a", "annotated `__all__`: %r is exported but not bound by the real star import of %s; its replacement shadows another binding" % (k, p2[1]))
             elif is_kept_star_resorted(p1, p2, im["mods"]):
                 ctx.known_hit("F7", "a star import that is kept (or two of them) is re-sorted relative to the other imports of its block, "
                                     "so a different import wins for %r (canonical sorting does not preserve which binding wins)" % k)
@@ -933,13 +1006,13 @@ def compare(ctx, cases, impl, index, model):
                 pred.append(rend["text"])
             if not ok or "".join(pred) != po["out"]:
                 ctx.disagreement("replace_star_imports output text", {"case": c, "program": pi}, po["out"], "".join(pred))
-            if po["out"] != c["programs"][pi]:
+            if po["out"] != all_programs(c)[pi]:
                 ctx.bump("program_changed")
         oracle_case(ctx, c, im)
         ctx.bump("stream:" + c.get("stream", "corpus"))
         ctx.count(c, nontriv)
         if nontriv:
-            ctx.sample({"files": c["files"], "programs": c["programs"],
+            ctx.sample({"files": c["files"], "programs": all_programs(c),
                         "exports": {k: v["exports"] for k, v in im["mods"].items()},
                         "rewritten": [p.get("out") for p in im["programs"]]}, limit=2)
 
